@@ -181,7 +181,7 @@ def sc_epochs(rng, quick):
                             bringup() + pre + mid + retrain(kind, rng, o) + post))
     # leaving U0 during the advertisement itself
     for kind in ("recover", "warm"):
-        for d in ([1, 6, 11] if quick else range(0, 16)):
+        for d in ([1, 7] if quick else range(0, 16)):
             o = {"lead": 0} if kind != "warm" else {"len": 3}
             out.append(("%s-in-advertisement+%d" % (kind, d),
                         bringup(settle=False)[:3] + [("wait", d)] + retrain(kind, rng, o) + post))
@@ -212,7 +212,7 @@ def sc_retry_down(rng, quick):
     out = []
     post = [("config", {"auto_ack": 4}), ("hdr", "good", 0), ("consume", 4), ("offer",), ("quiet",)]
     for kind in ("warm", "mismatch"):
-        for d in ([0, 3, 6, 9, 13] if quick else range(0, 22)):
+        for d in ([0, 6, 13] if quick else range(0, 22)):
             pre = bringup(cfg={"auto_ack": None}) + [("offer",), ("offer",), ("offer",), ("wait", 20),
                                                      ("lc", P.LBAD, "ok", None, "nowait"), ("wait", 2 + d)]
             if kind == "warm":
@@ -548,7 +548,7 @@ def _run(rep, prop, families, mc_names, sim_from=None, extra_assume=()):
     if sim_from:
         consts = dict(MC[sim_from][0], MaxRx=1000, MaxTx=1000, MaxEpochs=3, MaxRst=1)
         cfg = tlc.render_cfg(_cfg("MCLinkLayer_sim.cfg.tmpl"), consts)
-        fsim = pool.submit(tlc.simulate, SPEC_DIR, "MCLinkLayer", cfg, 10 if quick else 100, 120, rep.seed * 7 + 1)
+        fsim = pool.submit(tlc.simulate, SPEC_DIR, "MCLinkLayer", cfg, 6 if quick else 100, 120, rep.seed * 7 + 1)
     bench = _bench()
     t1 = time.time()
     named = []
